@@ -337,8 +337,30 @@ def rule_taint(ctx):
                 # assigned to a local whose every use goes into backward
                 st = au.enclosing_stmt(n)
                 ok = False
+                # the local must hold the mapped values themselves (a view,
+                # slice or array of them): a reduction or arithmetic in
+                # mapped space (np.min, mean, +, ...) does not commute with
+                # the map (min of a resistivity is the max conductivity)
+                pure = True
+                q_ = n
+                while q_ is not st and q_ is not None:
+                    par_ = au.parent(q_)
+                    if isinstance(par_, ast.Call) and q_ is not par_.func:
+                        fpar = ast.unparse(par_.func)
+                        if fpar not in ('np.asarray', 'np.array', 'getattr',
+                                        'np.atleast_1d'):
+                            pure = False
+                    if isinstance(par_, (ast.BinOp, ast.UnaryOp, ast.Compare,
+                                         ast.BoolOp)):
+                        pure = False
+                    if isinstance(par_, ast.Call) and q_ is par_.func and \
+                            isinstance(q_, ast.Attribute) and q_.attr not in (
+                                'reshape', 'ravel', 'copy', 'view', 'squeeze',
+                                'flatten', 'transpose'):
+                        pure = False
+                    q_ = par_
                 if isinstance(st, ast.Assign) and len(st.targets) == 1 and \
-                        isinstance(st.targets[0], ast.Name):
+                        isinstance(st.targets[0], ast.Name) and pure:
                     v = st.targets[0].id
                     cfg = CFG(fn)
                     dnode = cfg.node_of(st)
@@ -406,3 +428,8 @@ def run(ctx):
     rule_maps(ctx)
     rule_validation(ctx)
     rule_taint(ctx)
+    # computing with a model must not change it (MapConductivity.backward
+    # hands out the model's own array): shared with C02
+    from . import c02
+    from ..core.report import Renamed
+    c02.model_aliasing(Renamed(ctx, lambda r: 'C14.M4.alias'))
